@@ -222,6 +222,54 @@ func decodeGrid(c *Ctx) []decIn {
 		}
 		out = append(out, decIn{dec, b})
 	}
+	// sparse6 streams enumerated at the level of the format's (b, x) pairs: EVERY sequence of at most L pairs for small n, padded with
+	// 1-bits (as a writer would) and, for the short ones, with 0-bits: loops (x = v), jumps (x > v), repeated edges, x >= n, b = 1 runs
+	// that leave 0..n-1 - streams no encoder of this library writes but any sparse6 reader must survive
+	{
+		type cfg struct{ n, k, L int }
+		cfgs := []cfg{{2, 1, 5}, {3, 2, 4}, {4, 2, 4}, {5, 3, 3}, {8, 3, 2}, {9, 4, 2}}
+		if big {
+			cfgs = []cfg{{2, 1, 6}, {3, 2, 4}, {4, 2, 4}, {5, 3, 3}, {7, 3, 3}, {8, 3, 3}, {9, 4, 2}, {16, 4, 2}, {17, 5, 2}}
+		}
+		for _, cf := range cfgs {
+			vals := 1 << uint(cf.k+1)
+			var rec func(bits []int, pairs int)
+			emit := func(bits []int, fill int) {
+				b := append([]int{}, bits...)
+				for len(b)%6 != 0 {
+					b = append(b, fill)
+				}
+				str := []int{58, 63 + cf.n}
+				for i := 0; i < len(b); i += 6 {
+					v := 0
+					for j := 0; j < 6; j++ {
+						v = 2*v + b[i+j]
+					}
+					str = append(str, 63+v)
+				}
+				out = append(out, decIn{"s6", str})
+			}
+			rec = func(bits []int, pairs int) {
+				if pairs > 0 {
+					emit(bits, 1)
+					if pairs <= 2 && len(bits)%6 != 0 {
+						emit(bits, 0)
+					}
+				}
+				if pairs == cf.L {
+					return
+				}
+				for v := 0; v < vals; v++ {
+					nb := append([]int{}, bits...)
+					for j := cf.k; j >= 0; j-- {
+						nb = append(nb, (v>>uint(j))&1)
+					}
+					rec(nb, pairs+1)
+				}
+			}
+			rec(nil, 0)
+		}
+	}
 	for _, s := range []string{"", ":", "~", "~~", ":~", ":~~", "~?", ":~?", "~??", "~~?????", ":~~?????", ">>graph6<<", ">>sparse6<<", ">>sparse6<<:", ">>graph6<<~", ":?", ":@", ":A", ":A_", ":An", ":B", ":Bo", ":~?@A", "~?@A", "~@??", ":~@??", "~@?@", ":~@?@"} {
 		out = append(out, decIn{"g6", bytesJ(s)}, decIn{"s6", bytesJ(s)})
 	}
